@@ -295,6 +295,11 @@ func NewGadgetPlaintext(params Parameters, value interface{}, levelQ, levelP, ba
 		}
 	case ring.Poly:
 		pt.Value[0] = *el.CopyNew()
+	case *ring.Poly:
+		if el == nil {
+			return nil, fmt.Errorf("cannot NewGadgetPlaintext: nil *ring.Poly")
+		}
+		pt.Value[0] = *el.CopyNew()
 	default:
 		return nil, fmt.Errorf("cannot NewGadgetPlaintext: unsupported type, must be either int64, uint64 or ring.Poly but is %T", el)
 	}
